@@ -697,6 +697,33 @@ func corpus() []Input {
 		h.Steps = world.EncodeHistory([][]pipeline.Change{{{Op: pipeline.Update, Obj: ep1}}, {{Op: pipeline.Update, Obj: ep0}}})
 		out = append(out, h)
 	}
+	// wildcard host: one label / two labels / apex / upper case / port; exact sibling host with fall
+	// through; the four deviations of the regex rendering (witness of C03_wildcard_full_spec_refuted)
+	{
+		objs := []client.Object{
+			world.Service("ns1", "svc1", world.SvcPort{Name: "http", Port: 80, TargetPort: intstr.FromInt(8080)}),
+			world.Endpoints("ns1", "svc1", world.EpPort{Name: "http", Port: 8080, Ready: []string{"10.0.0.1"}}),
+			world.Service("ns1", "svc2", world.SvcPort{Name: "http", Port: 80, TargetPort: intstr.FromInt(8080)}),
+			world.Endpoints("ns1", "svc2", world.EpPort{Name: "http", Port: 8080, Ready: []string{"10.0.0.2"}}),
+			world.Service("ns1", "svc3", world.SvcPort{Name: "http", Port: 80, TargetPort: intstr.FromInt(8080)}),
+			world.Endpoints("ns1", "svc3", world.EpPort{Name: "http", Port: 8080, Ready: []string{"10.0.0.3"}}),
+			world.Ingress("ns1", "ing1", 10,
+				world.IngRule{Host: "*.wild.example", Paths: []world.IngPath{
+					{Path: "/app/sub", Type: "Exact", Service: "svc1", PortNum: 80},
+					{Path: "/app", Type: "Prefix", Service: "svc2", PortNum: 80},
+					{Path: "/Beg", Type: "ImplementationSpecific", Service: "svc1", PortNum: 80},
+					{Path: "/dir/", Type: "Prefix", Service: "svc1", PortNum: 80}}},
+				world.IngRule{Host: "a.wild.example", Paths: []world.IngPath{{Path: "/only", Type: "Prefix", Service: "svc3", PortNum: 80}}},
+				world.IngRule{Host: "", Paths: []world.IngPath{{Path: "/", Type: "Prefix", Service: "svc3", PortNum: 80}}}),
+		}
+		reqs := []Req{{false, "sub.wild.example", "/app/x"}, {false, "SUB.Wild.Example:8080", "/app"}, {false, "a.b.wild.example", "/app"},
+			{false, "wild.example", "/app"}, {false, "a.wild.example", "/only/1"}, {false, "a.wild.example", "/app"}, {true, "sub.wild.example", "/app"},
+			{false, "sub.wild.example", "/app/sub"}, {false, "sub.wild.example", "/appx"}, {false, "sub.wild.example", "/dir"}, {false, "sub.wild.example", "/beg/1"}}
+		out = append(out, mk("wildcard host *.wild.example with the exact sibling a.wild.example (strict-host off)", "", false, reqs, objs...))
+		s := mk("wildcard host *.wild.example with the exact sibling a.wild.example (strict-host on)", "", false, reqs, objs...)
+		s.Strict = true
+		out = append(out, s)
+	}
 	// witness of C03_maps_agree_refuted: /api ImplementationSpecific and /api Prefix on one host (plus / Prefix).
 	// The request /api is ambiguous (left unjudged: C04 leaves the order of equal-length rules
 	// unspecified); the real maps answer the begin rule (svc1), like the model of the generator.
@@ -768,7 +795,7 @@ func main() {
 	} else {
 		inputs = append(inputs, corpus()...)
 		inputs = append(inputs, loadCorpusDir()...)
-		n := o.Count(320, 2400)
+		n := o.Count(230, 2000)
 		for i := 0; i < n; i++ {
 			inputs = append(inputs, gen(rng, o.Search))
 		}
